@@ -1573,7 +1573,10 @@ Inductive obs :=
 | OFill (c : N) (seen : bytes)         (* 3 k: fill_buf() = Ok(seen), consume(c) *)
 | OFillErr (e : N)                     (* 3 k: fill_buf() = Err(kind) *)
 | OSet (code : N)                      (* 4 s: set_stream(Some s) accepted, the active stream afterwards *)
-| OWr (e wr code : N).                 (* 5: writeable(): result, is_writeable(), the active stream afterwards *)
+| OWr (e wr code : N)                  (* 5: writeable(): result, is_writeable(), the active stream afterwards *)
+| OPoll (c wr : N) (b : bytes)         (* 11 n: one poll of read(buf) = Ready(Ok(c)), is_writeable(), the bytes *)
+| OPollErr (k wr : N) (lost : bytes)   (* 11 n: one poll of read(buf) = Ready(Err(kind)), is_writeable() *)
+| OPollPending (wr : N).               (* 11 n: one poll of read(buf) = Pending (the future is dropped), is_writeable() *)
 
 (* newest first, as in [events] *)
 Definition obs_events (o : obs) : list (list N) :=
@@ -1585,6 +1588,9 @@ Definition obs_events (o : obs) : list (list N) :=
   | OFillErr e => [[]; [3; 0; e]]
   | OSet code => [[4; code]]
   | OWr e wr code => [[5; e; wr; code]]
+  | OPoll c wr b => [b; [11; 1; c; wr]]
+  | OPollErr k wr _ => [[]; [11; 0; k; wr]]
+  | OPollPending wr => [[]; [11; 2; 0; wr]]
   end.
 
 (* the stream bytes the operation took out of K: delivered to the handler, or dropped by a failing call *)
@@ -1594,6 +1600,8 @@ Definition obs_bytes (o : obs) : bytes :=
   | OReadErr _ lost => lost
   | OAll _ acc lost => acc ++ lost
   | OFill c seen => take c seen
+  | OPoll _ _ b => b
+  | OPollErr _ _ lost => lost
   | _ => []
   end.
 
@@ -1616,7 +1624,8 @@ Fixpoint tlaw (a0 : ast) (u0 : bytes) (cur : option N) (T : bytes) (os : list ob
     end
   end.
 
-(* scripts made of the read operations, set_stream, writeable, and the two ways to return *)
+(* scripts made of the read operations (awaited, or polled once and dropped), set_stream, writeable, and the two
+   ways to return *)
 Inductive rd_script : list N -> Prop :=
 | RS_nil : rd_script []
 | RS_read n rest : rd_script rest -> rd_script (1 :: n :: rest)
@@ -1626,7 +1635,8 @@ Inductive rd_script : list N -> Prop :=
 | RS_wr rest : rd_script rest -> rd_script (5 :: rest)
 | RS_exit d c rest : rd_script (8 :: d :: c :: rest)
 | RS_fail k rest : rd_script (9 :: k :: rest)
-| RS_readq n rest : rd_script rest -> rd_script (10 :: n :: rest).
+| RS_readq n rest : rd_script rest -> rd_script (10 :: n :: rest)
+| RS_poll n rest : rd_script rest -> rd_script (11 :: n :: rest).
 
 (* the observations are those of the script's operations, in order (a prefix, if the task stops early) *)
 Inductive obs_of : list N -> list obs -> Prop :=
@@ -1640,7 +1650,11 @@ Inductive obs_of : list N -> list obs -> Prop :=
 | OO_wr rest e wr code t : obs_of rest t -> obs_of (5 :: rest) (OWr e wr code :: t)
 (* 10 n: read(buf)?  -- observed like 1 n; a read error ends the run *)
 | OO_readq n rest c b t : obs_of rest t -> obs_of (10 :: n :: rest) (ORead c b :: t)
-| OO_readq_err n rest k l : obs_of (10 :: n :: rest) [OReadErr k l].
+| OO_readq_err n rest k l : obs_of (10 :: n :: rest) [OReadErr k l]
+(* 11 n: read(buf) polled once, not awaited; the run goes on whatever the result *)
+| OO_poll n rest c wr b t : obs_of rest t -> obs_of (11 :: n :: rest) (OPoll c wr b :: t)
+| OO_poll_err n rest k wr l t : obs_of rest t -> obs_of (11 :: n :: rest) (OPollErr k wr l :: t)
+| OO_poll_pending n rest wr t : obs_of rest t -> obs_of (11 :: n :: rest) (OPollPending wr :: t).
 
 (* how the event log of a returning handler ends: the event of the return operation (8 / 9 / end of the script), or
    nothing more when the error of a `read(buf)?` (10 n) was propagated: then that error is the result *)
@@ -1788,7 +1802,7 @@ Theorem run_handler_reads a0 u0 script : rd_script script ->
   forall f r w, pinv (rsp r) -> bytes_ok (remaining w) -> later_kept a0 u0 r w ->
   hr_post script a0 u0 r w (run_handler maxc f script r w).
 Proof.
-  induction 1 as [|n rest H IH|rest H IH|k rest H IH|s rest H IH|rest H IH|d c rest|k rest|n rest H IH];
+  induction 1 as [|n rest H IH|rest H IH|k rest H IH|s rest H IH|rest H IH|d c rest|k rest|n rest H IH|n rest H IH];
     intros f r w Hinv Hrem J;
     (destruct f as [|f]; [exists []; split; [constructor|]; cbn [run_handler rev flat_map app tlaw]; split; [reflexivity|eexists; reflexivity]|]);
     cbn [run_handler].
@@ -1908,6 +1922,28 @@ Proof.
       apply (tlaw_bytes a0 u0 _ _ _ (K (abs (rsp r1)) (remaining w1))); [reflexivity|exact (ac_K _ _ _ _ _ _ A)|reflexivity].
     + destruct AI as (r1 & A & _). exists []. split; [constructor|]. cbn [rev flat_map app tlaw].
       split; [apply (ac_ev _ _ _ _ _ _ A)|eexists; reflexivity].
+  - (* 11 n: one poll; Ready or Pending, the bytes taken from K are accounted for and the script goes on *)
+    destruct (poll_input maxc (io_fuel w (len (buffer (rsp r)))) (Some n) r w) as [[p r1] w1] eqn:EP.
+    destruct (poll_input_reads (io_fuel w (len (buffer (rsp r)))) (Some n) r w p r1 w1 Hinv Hrem
+                ltac:(rewrite io_fuel_remaining; lia) EP) as (dl & A & C & _).
+    assert (STEP : forall o e b, obs_switch o = None -> obs_events o = [b; e] -> obs_bytes o = dl ->
+              (forall t, obs_of rest t -> obs_of (11 :: n :: rest) (o :: t)) ->
+              hr_post (11 :: n :: rest) a0 u0 r w (run_handler maxc f rest r1 (w_ev (w_ev w1 e) b))).
+    { intros o e b Hsw Hev Hby Hoo.
+      apply (hr_post_cons _ rest a0 u0 r w o r1 (w_ev (w_ev w1 e) b)); [exact Hoo| | | |].
+      * rewrite Hev. cbn [w_ev events app]. rewrite (ac_ev _ _ _ _ _ _ A). reflexivity.
+      * apply (ac_req _ _ _ _ _ _ A).
+      * intros t T' HT. rewrite (ac_stream _ _ _ _ _ _ A) in HT.
+        apply (tlaw_bytes a0 u0 _ _ _ (K (abs (rsp r1)) (remaining w1))); [exact Hsw|rewrite Hby; exact (ac_K _ _ _ _ _ _ A)|exact HT].
+      * apply IH; [apply (ac_inv _ _ _ _ _ _ A)|exact (acct_bytes_ok _ _ _ _ _ _ A Hrem)|exact (later_kept_acct _ _ _ _ _ _ _ A J)]. }
+    destruct p as [[[c b]|k]| |]; cbn [pi_case] in C.
+    + destruct C as (<- & _).
+      apply (STEP (OPoll c (if rwriteable r1 then 1 else 0) dl)); try reflexivity. intros t Ht; constructor; exact Ht.
+    + apply (STEP (OPollErr k (if rwriteable r1 then 1 else 0) dl)); try reflexivity. intros t Ht; constructor; exact Ht.
+    + destruct C as (Hdl & _).
+      apply (STEP (OPollPending (if rwriteable r1 then 1 else 0))); try reflexivity; [symmetry; exact Hdl|]. intros t Ht; constructor; exact Ht.
+    + destruct C as (Hdl & _).
+      apply (STEP (OPollPending (if rwriteable r1 then 1 else 0))); try reflexivity; [symmetry; exact Hdl|]. intros t Ht; constructor; exact Ht.
 Qed.
 
 (* ---- Request.aborted along the awaited read and along a whole handler: it is set only by a read that returns the
@@ -1952,6 +1988,7 @@ Ltac ab_leaf H :=
   cbn [raborted];
   first [ exact H
         | eapply await_input_raborted_mono; [eassumption|exact H]
+        | eapply poll_input_raborted_mono; [eassumption|exact H]
         | eapply read_all_raborted_mono; [eassumption|exact H]
         | eapply do_writeable_raborted_mono; [eassumption|exact H] ].
 
@@ -1997,14 +2034,15 @@ Inductive rd_only : list N -> Prop :=
 | RO_fill k rest : rd_only rest -> rd_only (3 :: k :: rest)
 | RO_exit d c rest : rd_only (8 :: d :: c :: rest)
 | RO_fail k rest : rd_only (9 :: k :: rest)
-| RO_readq n rest : rd_only rest -> rd_only (10 :: n :: rest).
+| RO_readq n rest : rd_only rest -> rd_only (10 :: n :: rest)
+| RO_poll n rest : rd_only rest -> rd_only (11 :: n :: rest).
 
 Lemma rd_only_rd_script script : rd_only script -> rd_script script.
 Proof. induction 1; constructor; assumption. Qed.
 
 Lemma rd_only_obs script os : rd_only script -> obs_of script os -> Forall (fun o => obs_switch o = None) os.
 Proof.
-  intros H. revert os. induction H as [|n rest H IH|rest H IH|k rest H IH|d c rest|k rest|n rest H IH]; intros os Ho;
+  intros H. revert os. induction H as [|n rest H IH|rest H IH|k rest H IH|d c rest|k rest|n rest H IH|n rest H IH]; intros os Ho;
     inversion Ho; subst; try constructor; try reflexivity; try (apply IH; assumption); try constructor.
 Qed.
 
